@@ -294,7 +294,7 @@ class C03Engine(Engine):
         channel = 'argv'
         read_sizes = None
         if src == 'model':
-            cfg = specgen.Cfg(max_ns=t.rng(1, 2), max_types=t.rng(1, 5), tag_annotations=True,
+            cfg = specgen.Cfg(max_ns=t.rng(1, 2), max_types=t.rng(1, 5), tag_annotations=True, nullable_alias_pct=25, alias_ref_pct=30,
                               nested_label_lists=True)
             model = specgen.gen_model(t, cfg)
             dupdef = None
